@@ -12,6 +12,9 @@
 (* then its backend calls (each may stay inside the backend for as long as *)
 (* the environment likes), then the deferred releases.  Plans:             *)
 (*   read(n)    safelyRead: renameMu R, opMu[n] R, call (read class, n)    *)
+(*   open(n,f)  Tlopen on fid f of node n: the fid's openMu, then           *)
+(*              safelyRead(n): Open.  (As found - R10 - there was no        *)
+(*              openMu: two Tlopen on one fid both reached File.Open.)      *)
 (*   write(n)   safelyWrite: renameMu R, opMu[n] W, call (write class, n)  *)
 (*   unlink(n,e) safelyWrite(n) + opMu[e] W, UnlinkAt(n, entry e)          *)
 (*   walk(n,e)  safelyRead(n): Walk(name) on n, then GetAttr on the new    *)
@@ -36,12 +39,16 @@ Dev(x) == x \notin Fixed
 Nodes == 1..4
 Parent(n) == CASE n = 1 -> 1 [] n = 2 -> 1 [] n = 3 -> 2 [] n = 4 -> 1
 RM == 0                  \* lock id of renameMu; opMu[n] has lock id n
+OM(n, f) == 10 * n + f   \* lock id of the openMu of fid f (1 or 2) on node n
 
 \* A plan instance: [p |-> name, n |-> node, e |-> entry/child node]
 \* Steps: <<"L", lock, mode>>  <<"C", kind, class, path, entry>>  <<"U">>
 Call(k, cls, path, entry) == <<"C", k, cls, path, entry>>
 Steps(pl) ==
   CASE pl.p = "read"   -> << <<"L", RM, "r">>, <<"L", pl.n, "r">>, Call("Read", "read", pl.n, 0), <<"U">>, <<"E">> >>
+    [] pl.p = "open"   -> IF Dev("R10")
+                          THEN << <<"L", RM, "r">>, <<"L", pl.n, "r">>, Call("Open", "read", pl.n, 0), <<"U">>, <<"E">> >>
+                          ELSE << <<"L", OM(pl.n, pl.e), "w">>, <<"L", RM, "r">>, <<"L", pl.n, "r">>, Call("Open", "read", pl.n, 0), <<"U">>, <<"E">> >>
     [] pl.p = "write"  -> << <<"L", RM, "r">>, <<"L", pl.n, "w">>, Call("Write", "write", pl.n, 0), <<"U">>, <<"E">> >>
     [] pl.p = "unlink" -> << <<"L", RM, "r">>, <<"L", pl.n, "w">>, <<"L", pl.e, "w">>,
                              Call("UnlinkAt", "write", pl.n, pl.e), <<"U">>, <<"E">> >>
@@ -66,6 +73,7 @@ Steps(pl) ==
 
 PlanSet ==
   UNION { IF "read" \in Plans   THEN {[p |-> "read", n |-> n, e |-> 0] : n \in Nodes} ELSE {},
+          IF "open" \in Plans   THEN {[p |-> "open", n |-> n, e |-> f] : n \in Nodes, f \in {1, 2}} ELSE {},
           IF "write" \in Plans  THEN {[p |-> "write", n |-> n, e |-> 0] : n \in Nodes} ELSE {},
           IF "unlink" \in Plans THEN {[p |-> "unlink", n |-> Parent(e), e |-> e] : e \in {2, 3, 4}} ELSE {},
           IF "walk" \in Plans   THEN {[p |-> "walk", n |-> Parent(e), e |-> e] : e \in {2, 3, 4}} ELSE {},
@@ -88,7 +96,7 @@ VARIABLES plan,     \* [H -> plan instance | none]
 
 vars == <<plan, pc, inside, wr, rd, ww, rw, ba>>
 View == <<plan, pc, inside, wr, rd, ww, rw>>       \* for looping configurations, where ba is history only
-Locks == {RM} \cup Nodes
+Locks == {RM} \cup Nodes \cup {OM(n, f) : n \in Nodes, f \in {1, 2}}
 NoPlan == [p |-> "-", n |-> 0, e |-> 0]
 
 Init == /\ plan = [h \in H |-> NoPlan] /\ pc = [h \in H |-> 0] /\ inside = [h \in H |-> FALSE]
@@ -176,6 +184,10 @@ Conflict(a, b) ==
 
 ContractInv ==
   \A a, b \in H : (a # b /\ In(a) /\ In(b) /\ (Conflict(a, b) \/ Conflict(b, a))) => (Deviant(a) \/ Deviant(b))
+
+\* File.Open is not entered twice on one File (one fid) at a time
+OpenOnceInv == \A a, b \in H : (a # b /\ In(a) /\ In(b) /\ K(a) = "Open" /\ K(b) = "Open")
+                                 => ~(plan[a].n = plan[b].n /\ plan[a].e = plan[b].e)
 
 \* every handler that began eventually finishes when the backend lets calls return
 Terminates == \A h \in H : (pc[h] > 0) ~> (pc[h] = 0)
